@@ -41,6 +41,35 @@ impl<'a, 'b> VP<'a, 'b> {
             self.out.push(' ');
         }
     }
+    /// after an opening `[` (or the `name |` of a key capture): a blank, or a line break that may carry
+    /// a comment
+    fn open_filter(&mut self, depth: usize) {
+        if self.u.chance(self.p_layout, 8) {
+            if self.u.chance(1, 2) {
+                self.out.push_str(" # comment after the opening bracket ] }");
+                self.comments += 1;
+            }
+            self.out.push('\n');
+            self.ind(depth);
+            *self.used.entry("break-in-filter").or_default() += 1;
+        } else {
+            self.out.push(' ');
+        }
+    }
+    /// before the closing `]`
+    fn close_filter(&mut self, depth: usize) {
+        if self.u.chance(self.p_layout, 8) {
+            if self.u.chance(1, 2) {
+                self.out.push_str(" # comment before the closing bracket [ {");
+                self.comments += 1;
+            }
+            self.out.push('\n');
+            self.ind(depth);
+        } else {
+            self.out.push(' ');
+        }
+        self.out.push(']');
+    }
     /// end the current line: optional trailing blanks / trailing comment, newline, optional blank
     /// lines and comment lines
     fn eol(&mut self, depth: usize, allow_comment: bool) {
@@ -190,46 +219,38 @@ impl<'a, 'b> VP<'a, 'b> {
                 }
                 Part::Filter(cnf) => {
                     self.out.push('[');
-                    if self.u.chance(self.p_layout, 8) {
-                        self.out.push('\n');
-                        self.ind(depth + 2);
-                        *self.used.entry("break-in-filter").or_default() += 1;
-                    } else {
-                        self.out.push(' ');
-                    }
-                    self.cnf(cnf, depth + 2, false);
-                    if self.u.chance(self.p_layout, 8) {
-                        self.out.push('\n');
-                        self.ind(depth + 1);
-                    } else {
-                        self.out.push(' ');
-                    }
-                    self.out.push(']');
+                    self.open_filter(depth + 2);
+                    self.cnf(cnf, depth + 2, true);
+                    self.close_filter(depth + 1);
                 }
                 Part::CapFilter(name, cnf) => {
-                    self.out.push_str("[ ");
+                    self.out.push('[');
+                    self.open_filter(depth + 2);
                     self.out.push_str(name);
-                    self.out.push_str(" | ");
-                    self.cnf(cnf, depth + 2, false);
-                    self.out.push_str(" ]");
+                    self.out.push_str(" |");
+                    self.open_filter(depth + 2);
+                    self.cnf(cnf, depth + 2, true);
+                    self.close_filter(depth + 1);
                 }
                 Part::KeysFilter { op, neg, rhs } => {
-                    self.out.push_str("[ ");
+                    self.out.push('[');
+                    self.open_filter(depth + 2);
                     self.kw("keys", &["keys", "KEYS"]);
                     self.out.push(' ');
                     self.binop(*op, *neg);
                     self.out.push(' ');
                     self.lit(rhs, depth);
-                    self.out.push_str(" ]");
+                    self.close_filter(depth + 1);
                 }
                 Part::KeysFilterVar { op, neg, var } => {
-                    self.out.push_str("[ ");
+                    self.out.push('[');
+                    self.open_filter(depth + 2);
                     self.kw("keys", &["keys", "KEYS"]);
                     self.out.push(' ');
                     self.binop(*op, *neg);
                     self.out.push_str(" %");
                     self.out.push_str(var);
-                    self.out.push_str(" ]");
+                    self.close_filter(depth + 1);
                 }
             }
         }
